@@ -317,15 +317,31 @@ impl FsCommand {
         if let Err(e) = Self::unsafe_copy(source, target) {
             // The target didn't exist before. Don't leave an incomplete copy behind,
             // it would look like the moved file and block moving the file again.
-            let _ = fs::remove_file(target.to_path_buf());
-            return Err(e);
+            return Err(Self::remove_copy(target, e));
         }
         if let Err(e) = Self::remove(source) {
             // The file stays where it was, so the move has failed. Don't leave the copy behind.
-            let _ = fs::remove_file(target.to_path_buf());
-            return Err(e);
+            return Err(Self::remove_copy(target, e));
         }
         Ok(())
+    }
+
+    /// Removes the copy that a failed move has left at the target.
+    /// Returns the error to report: the cause of the failed move, with the information
+    /// that the copy has been left behind if it could not be removed.
+    fn remove_copy(target: &Path, cause: io::Error) -> io::Error {
+        match fs::remove_file(target.to_path_buf()) {
+            Err(e) if e.kind() != io::ErrorKind::NotFound => io::Error::new(
+                cause.kind(),
+                format!(
+                    "{}. Failed to remove the copy {}: {}",
+                    cause,
+                    target.display(),
+                    e
+                ),
+            ),
+            _ => cause,
+        }
     }
 
     /// Returns a random temporary file name in the same directory, guaranteed to not collide with
